@@ -26,6 +26,7 @@ const PROFILE: Profile = Profile {
     w_z2: 30,
     w_z3: 0,
     w_z4: 1,
+    w_z5: 2,
     clean: 40,
 };
 
@@ -144,6 +145,25 @@ fn byzantine_deliveries(rng: &mut Prng, or: &Oracles, n: usize, out: &mut Vec<De
         Some(t) => t,
         None => return,
     };
+    // Z1-huge: a triple with one s2 coefficient in 6145..12159 and an otherwise tiny vector; its norm is
+    // whatever it is (no exact target) - the verdict must still be the specification's
+    if rng.chance(1, 3) {
+        let big = 6145 + rng.below(12160 - 6145) as i64;
+        let tgt = big * big + 40_000 + rng.below(1 << 16) as i64;
+        if let Some(h) = byz::exact_norm_triple_shape(p, &or.get(n).ntt, rng, tgt, false, None, 4) {
+            out.push(Delivery {
+                n,
+                target: Target::Verify,
+                bytes: h.sig,
+                msg: h.msg,
+                pk: h.pk,
+                pristine: None,
+                faults: vec![],
+                origin: "Z1-huge-s2".into(),
+                detail: h.note,
+            });
+        }
+    }
     let base = Delivery {
         n,
         target: Target::Verify,
